@@ -16,25 +16,30 @@ type pollQueue struct {
 
 func newPollQueue() *pollQueue {
 	return &pollQueue{
-		ready: make(chan struct{}),
+		// Buffered, so that a signal sent while no one
+		// is waiting in `poll` yet is not lost.
+		ready: make(chan struct{}, 1),
 	}
 }
 
 // poll for packets. If we already have a packet, this function will immediately return.
 // Otherwise it will wait for a packet until pollTimeout is reached.
 func (pq *pollQueue) poll(pollTimeout time.Duration) []*parser.Packet {
-	packets := pq.get()
+	timeout := time.After(pollTimeout)
+	for {
+		packets := pq.get()
+		if len(packets) > 0 {
+			return packets
+		}
 
-	if len(packets) > 0 {
-		return packets
+		select {
+		case <-pq.ready:
+			// Look again. The signal can be a leftover of packets that were already taken.
+		case <-timeout:
+			// Don't answer empty if packets were queued in the meantime.
+			return pq.get()
+		}
 	}
-
-	select {
-	case <-pq.ready:
-		packets = pq.get()
-	case <-time.After(pollTimeout):
-	}
-	return packets
 }
 
 // add a packet to the queue and signal the other goroutine (if any).
